@@ -840,12 +840,12 @@ def run_c13(ctx):
             k = MICRO_KEY
         elif conf and conf.get('marginal_only') and m['mode'] == 'translate' and (m.get('op') or '').startswith('InflatePaths64') and max(abs(x) for x in m['v']) >= 2 ** 50:
             k = 'offset-float-spacing-beyond-2^50'   # offset vertices are float64 sums of absolute coordinates: spacing 0.25..1 unit there
+        elif (m.get('op') or '').startswith('InflatePaths64') and mj and int(mj.group(1)) in (0, 1) and max(abs(x) for x in m['v']) >= 2 ** 45:
+            k = 'offset-square-join-absolute-coordinates'   # doSquare (Square joins, and Miter joins beyond the miter limit), translation beyond 2^45
         elif conf and conf.get('marginal_only') and m['mode'] == 'translate':
             k = BAND_KEY
         elif conf and bits >= 32:
             k = OVERFLOW_KEY
-        elif (m.get('op') or '').startswith('InflatePaths64') and mj and int(mj.group(1)) in (0, 1) and max(abs(x) for x in m['v']) >= 2 ** 45:
-            k = 'offset-square-join-absolute-coordinates'   # doSquare (Square joins, and Miter joins beyond the miter limit), translation beyond 2^45
         v = {'key': k, 'kind': 'magnitude', 'detail': {'corpus_entry': entry, 'checker': res, 'confirmed': conf, 'max_difference_bits': bits}}
         if conf:
             v['text'] = '%s (clip type %d, fill rule %d): region differs at point (%s, %s), windings %s; largest coordinate difference has %d bits' % (what, ct, fr, conf['point'][0], conf['point'][1], conf['windings'], bits)
@@ -1190,9 +1190,23 @@ def run_c04(ctx):
     _merge_dist(ctx, summary)
     ent = lambda m: {'subject': m['subject'], 'clip': m['clip'], 'ct': m['ct'], 'fr': m['fr']}
     viol = []
+    def _canon_ring(p):
+        q = [tuple(v) for v in p]
+        k = q.index(min(q)) if q else 0
+        return tuple(q[k:] + q[:k])
+
     for d in summary.get('direct_failures') or []:
         e = ent(d)
-        viol.append({'key': fw.input_key(e), 'kind': d.get('kind'), 'text': '%s (clip type %d, fill rule %d, %s): %s %s' % (d.get('api'), d['ct'], d['fr'], fw.input_key(e), d.get('kind'), d.get('panic', '')),
+        k4 = fw.input_key(e)
+        if 'not the closed paths' in (d.get('kind') or '') and d.get('flat') is not None and d.get('nodes') is not None:
+            # the flat result keeps a ring of zero area (all vertices collinear) that the tree builder's bounds test drops
+            import collections as _c
+            fa = _c.Counter(_canon_ring(p) for p in d['flat'])
+            tr = _c.Counter(_canon_ring(nd['poly']) for nd in d['nodes'])
+            diff = list((fa - tr).elements()) + list((tr - fa).elements())
+            if diff and not list((tr - fa).elements()) and all(shoelace2([list(map(list, r))]) == 0 for r in diff):
+                k4 = 'zero-area-ring-in-flat-result-only'
+        viol.append({'key': k4, 'kind': d.get('kind'), 'text': '%s (clip type %d, fill rule %d, %s): %s %s' % (d.get('api'), d['ct'], d['fr'], fw.input_key(e), d.get('kind'), d.get('panic', '')),
                      'detail': {'corpus_entry': e, 'flat': d.get('flat'), 'nodes': d.get('nodes')}})
     seen = set()
     for cid, res in results.items():
@@ -1541,7 +1555,7 @@ PROPS = {
     },
     'C06': {
         'run': run_c06, 'level': 'proof', 'trust': [t.replace('the Vatti sweep itself (clipper_base.go, engine.go)', 'the rectangle clipper state machine (rect_clip.go)') for t in REGION_TRUST] + ['vertex-in-rectangle, inside-unchanged, outside-vanishes and the driver (joint result = concatenation of per-path results) are decided directly by the harness on every case'],
-        'rule': 'corpus/c06.jsonl first; grazer family (long shallow or steep edges passing 1-6 units outside a rectangle corner and running far beyond it on both sides, joined to interior points, side-region points and further grazers); ALL 25^3 ordered triangles (thorough: also all 25^4 quadrilaterals) on the 5x5 lattice {outside, low side, middle, high side, outside} of a rectangle, whose diagonals pass through the corners; random lattice and boundary families (vertices on corners/sides, edges exactly through corners); random closed path sets (8 polygon kinds, 9 grids) x rectangles whose sides often pass through path vertices, empty and swallowing rectangles; distinct = distinct (rect, paths); non-trivial = non-empty output',
+        'rule': 'corpus/c06.jsonl first; a sixth of the random cases on grids 2^22..2^27; grazer family (long shallow or steep edges passing 1-6 units outside a rectangle corner and running far beyond it on both sides, joined to interior points, side-region points and further grazers); ALL 25^3 ordered triangles (thorough: also all 25^4 quadrilaterals) on the 5x5 lattice {outside, low side, middle, high side, outside} of a rectangle, whose diagonals pass through the corners; random lattice and boundary families (vertices on corners/sides, edges exactly through corners); random closed path sets (8 polygon kinds, 9 grids) x rectangles whose sides often pass through path vertices, empty and swallowing rectangles; distinct = distinct (rect, paths); non-trivial = non-empty output',
         'assumes': [],
     },
     'C15': {
@@ -1576,7 +1590,7 @@ PROPS = {
     },
     'C13': {
         'run': run_c13, 'level': 'proof', 'trust': REGION_TRUST + ['Model/Arith.v: explicit int64 wrap-around in the models of CrossProduct, dotProduct64, Area64, productsAreEqual'],
-        'rule': 'small base inputs (grids 4..100) x clip types x fill rules; translated by vectors of magnitude 2^20..2^52 and compared with the untranslated result; scaled by k up to extents 2^61 and certified against the exact boolean region with band 2 + 2^-40 x extent; Area64, PointInPolygon and SimplifyPath64 compared exactly under translation; RectClipPaths64 and InflatePaths64 (simple polygon sets, all join types) compared as regions under translation; distinct = distinct (input, vector or factor)',
+        'rule': 'PointInPolygon under scaling by 2^24 on flat-topped 64..256-gons (edges below 2^31, extent above 2^33; a quarter of the scaled cases); small base inputs (grids 4..100) x clip types x fill rules; translated by vectors of magnitude 2^20..2^52 and compared with the untranslated result; scaled by k up to extents 2^61 and certified against the exact boolean region with band 2 + 2^-40 x extent; Area64, PointInPolygon and SimplifyPath64 compared exactly under translation; RectClipPaths64 and InflatePaths64 (simple polygon sets, all join types) compared as regions under translation; distinct = distinct (input, vector or factor)',
         'assumes': [],
     },
     'C16': {
@@ -1609,7 +1623,7 @@ PROPS = {
         'trust': ['Model/Engine.v: hand-written state machine of the engine between calls (flags, scratch lists abstracted to lengths) with the sweep as an oracle; tied to the code by the verif hook VerifScratch: after every history the real engine\'s scratch lengths and sticky flags are compared with the model\'s state',
                   'the oracle hypotheses of C12_fresh_engine (flat output independent of the tree flag; dependence on the added paths only) are what the harness tests: every Execute after a random history is compared with a fresh engine (bytewise; by certified region equality / exact coverage comparison when paths were added in several calls)',
                   'input immutability is checked dynamically (deep copies before/after every call in every harness), not proved'] + REGION_TRUST,
-        'rule': 'random histories of 3-11 operations (AddPaths subject/clip/open, Execute, ExecuteOC, ExecutePolyTree, random clip types and fill rules, pre-filled solution arguments) on Clipper64 and ClipperD, each execute compared with a fresh engine; ClipperOffset executed twice with different deltas and with a group (possibly of another join type) added in between; evaluations = operations; non-trivial = histories',
+        'rule': 'random histories of 3-11 operations (AddPaths subject/clip/open, Execute, ExecuteOC, ExecutePolyTree, random clip types and fill rules, one execute in six with a fill rule outside the enumeration and one in twelve with NoClip or an out-of-range clip type, pre-filled solution arguments) on Clipper64 and ClipperD, each execute compared with a fresh engine; ClipperOffset executed twice with different deltas and with a group (possibly of another join type) added in between; evaluations = operations; non-trivial = histories',
         'assumes': [],
     },
     'C07': {
@@ -1624,7 +1638,7 @@ PROPS = {
         'run': run_c04, 'level': 'proof',
         'trust': REGION_TRUST + ['Model/PolyTree.v: node API (Level/IsHole) and the abstract nesting lemma (polygons containing a point form a chain, so a parent is the innermost polygon around its child)',
                                  'same-polygons (as cyclic vertex sequences, each exactly once), Level = parent level + 1, IsHole <=> even level, IsHole <=> negative exact area are decided directly on every tree'],
-        'rule': 'corpus/c04.jsonl first; nested rings to depth 6 (islands in holes in islands, second islands touching their hole), nested-vs-nested, rectangle soups on a coarse lattice, the cavities family (an arch glued to a base bar whose cavity is cut into 2-4 holes by pairs of shelves meeting along a horizontal segment, an island in every hole, 4 orientations x 4 scales), the pinch family (two clip bars meeting along a horizontal line, holes and islands aligned with it), and generic random pairs x clip types x fill rules through BooleanOpPolyTree64 and Clipper64.ExecutePolyTree64 (the float tree is tied to the 64-bit one by C07); pairwise parent/sibling certificates for trees of <= 14 nodes; non-trivial = depth >= 2',
+        'rule': 'corpus/c04.jsonl first; nested rings to depth 6 (islands in holes in islands, second islands touching their hole), nested-vs-nested, rectangle soups on a coarse lattice (a quarter of them 4-6 rectangles a side), messy polygons inside one or two big frames (every ring nested), the cavities family (an arch glued to a base bar whose cavity is cut into 2-4 holes by pairs of shelves meeting along a horizontal segment, an island in every hole, 4 orientations x 4 scales), the pinch family (two clip bars meeting along a horizontal line, holes and islands aligned with it), and generic random pairs x clip types x fill rules through BooleanOpPolyTree64 and Clipper64.ExecutePolyTree64 (the float tree is tied to the 64-bit one by C07); pairwise parent/sibling certificates for trees of <= 14 nodes; non-trivial = depth >= 2',
         'assumes': [],
     },
     'C05': {
@@ -1638,7 +1652,7 @@ PROPS = {
         'run': run_c10, 'level': 'proof', 'trust': [t.replace('the Vatti sweep itself (clipper_base.go, engine.go)', 'the offsetter\'s per-vertex join construction (offset.go: float trigonometry, not modelled) and the final union') for t in REGION_TRUST] + [
                   'the strips and discs handed to the checker (points within |delta|-1 of an edge along its normal, discs of radius |delta|-tol about vertices for round joins) are built by the harness in floating point and rounded to the lattice; their containment in the ideal |delta|-tol neighbourhood is not re-proved',
                   'squared radii (k|delta| + tol)^2 are passed as rational upper bounds chosen by the harness; the checker uses them exactly'],
-        'rule': 'open polylines of 1-6 points (duplicates, gentle turns), polylines with one near-vertical segment of 3.1e9..4.2e9 units (an eleventh of the cases; near-horizontal ones are not generated: the cover search of the far-band certificate bisects cells and would need ~35 levels next to the end caps), loops whose last point repeats the first, a third of the calls with 1-2 companion polylines in the same call x 4 end types x 4 join types x half-widths 5%-30% of the segment length; per case: canonical form, both normal strips of every segment inside the result, nothing farther than k*delta+tol from the polyline, single points against an inscribed square/disc',
+        'rule': 'open polylines of 1-6 points (duplicates, gentle turns), flat zigzags stroked as Joined loops with a half-width above half their height (a seventh of the cases), polylines with one near-vertical segment of 3.1e9..4.2e9 units (an eleventh of the cases; near-horizontal ones are not generated: the cover search of the far-band certificate bisects cells and would need ~35 levels next to the end caps), loops whose last point repeats the first, a third of the calls with 1-2 companion polylines in the same call x 4 end types x 4 join types x half-widths 5%-30% of the segment length; per case: canonical form, both normal strips of every segment inside the result, nothing farther than k*delta+tol from the polyline, single points against an inscribed square/disc',
         'assumes': ['PARTIAL as C05'],
     },
     'C09': {
